@@ -254,6 +254,13 @@ def ensure_build() -> tuple[bool, str]:
     BUILD.mkdir(exist_ok=True)
     with open(BUILD / ".lock", "w") as lk:
         fcntl.flock(lk, fcntl.LOCK_EX)
+        # Aoef/Schema.v is generated from the schema table of harness/aoef.py (rewritten only when it changes)
+        from . import aoef as _aoef
+
+        txt = _aoef.gen_schema_v()
+        sp = COQ / "Aoef" / "Schema.v"
+        if not sp.exists() or sp.read_text() != txt:
+            sp.write_text(txt)
         rc, out = sh("timeout 3000 make -k -j16", cwd=COQ, timeout=3100)
     return rc == 0, out[-4000:]
 
